@@ -107,7 +107,7 @@ try:
     import c14_gone as _gone        # noqa: E402  (needs NEW_ARGS above)
 finally:
     sys.path.remove(GONE_DIR)
-Gone, GoneNA, PlainGone = _gone.Gone, _gone.GoneNA, _gone.PlainGone
+Gone, GoneNA, PlainGone, PlainGoneFalsy = _gone.Gone, _gone.GoneNA, _gone.PlainGone, _gone.PlainGoneFalsy
 
 
 def show_gone():
